@@ -190,6 +190,14 @@ func (s *Set) c03FirstExposure(w *simapi.Write, v *simapi.View, R int) {
 	if svc == nil {
 		return
 	}
+	for _, a := range s.R.UserActions {
+		if strings.HasPrefix(strings.TrimSpace(a), "scale:") {
+			// the decision to pin or (first step replaces every stable pod) to restore was taken for the size the workload
+			// had when the step began; a resize in the middle of the step is followed up later
+			s.count("c03_obs_first_exposure_after_user_scale_not_judged", 1)
+			return
+		}
+	}
 	s.count("c03_first_exposure_pin_checks", 1)
 	if interp.Pinned(svc, interp.RevisionKeys...) == "" {
 		s.violate("C03", fmt.Sprintf("c03:first-step-pods-created-before-stable-service-pinned:%s/%s", s.S.Kind, s.S.Style), fmt.Sprintf("%s raised the new-revision target of %s for step 1 (which configures traffic) while the stable Service %s is not pinned to the stable revision: %v", w.Actor, w.Key, s.stable, simapi.StrMap(svc, "spec.selector")), w, nil)
